@@ -96,6 +96,11 @@ CHECKS = {
         text="Each observed validation is decided by construction labels: no false rejection, every injected violation reported (needle = unique element name), same verdict for every ordering, cache invalidated after resolver changes.",
         note="A violation counts as reported when a message contains the unique name of the injected element.",
         design="4/C13"),
+    "C14": dict(
+        technique="invariant at quiescent points: after every clone / transform_schema / extend_schema / fix_type_references call in random operation sequences a monitor asserts the closure invariant on result, intermediate and source schemas, compares canonical description and identity map (same resolver objects) with the expectation computed on the schema IR, checks hidden names against introspection and validation, and compares the source with its initial snapshot (description, identity map, printed SDL, sample query result)",
+        text="Closure, preservation of untouched attributes and non-interference with the source are decided after each observed operation of sequences applied repeatedly to the same source and chained on results.",
+        note="Expected visibility results follow the transform's docstring; operations that would yield an invalid schema may be refused with a schema error.",
+        design="4/C14"),
 }
 
 PENDING_REASON = "check not built yet in this session (planned: see DESIGN.md section 4); no claim is made"
